@@ -16,6 +16,7 @@
 
 // ---- std::string: real libstdc++ code, instantiated here ----
 template class std::__cxx11::basic_string<char>;
+template class std::allocator<char>;
 
 // ---- exceptions that live in libstdc++.so ----
 namespace std {
